@@ -377,3 +377,76 @@ func zxC18MemstoreCopy() {
 	}
 	vrtReach("C18.M")
 }
+
+// C14.W — a truncating flush (raw pass-through disabled, as every 10th flush is) writes back, for
+// every key, exactly the periods that are still inside the retention window: periods that ended
+// at or before now − retention are absent from the new file, periods that end after it are kept
+// with their values, and a key whose periods have all expired is absent (so it cannot reappear).
+//
+//zx:harness prop=C14 id=C14.W tier=quick env=fs,sum
+func zxC14TruncatingFlush() {
+	zxFSReset()
+	fields := core.Fields{core.PointsField, zxFieldA}
+	t, rs := zxTable(fields)
+	t.RetentionPeriod = 10 * time.Minute // within the 1024-period window of the rounding summaries
+	ages := []int{0, 2, 5} // seconds before zxNow
+	for i, age := range ages {
+		zxInsert(rs, rs.memStore, "x", zxNow.Add(-time.Duration(age)*time.Second), map[string]float64{"a": float64(10 + i)}, 0, int64(10+i))
+	}
+	zxInsert(rs, rs.memStore, "y", zxNow.Add(-5*time.Second), map[string]float64{"a": 99}, 0, 20)
+	rs.doProcessFlush(rs.memStore, false, false)
+	// time passes / retention is such that the boundary falls somewhere among the stored periods
+	retSec := vrtShape("retentionSec", 7) + 1
+	frac := time.Duration(vrtRange("retentionFrac", 0, int64(time.Second)-1))
+	t.RetentionPeriod = time.Duration(retSec)*time.Second - frac
+	tb := zxNow.Add(-t.RetentionPeriod)
+	// new data for another key so that the flush has something to do; x and y are untouched
+	zxInsert(rs, rs.memStore, "z", zxNow, map[string]float64{"a": 1}, 0, 30)
+	out, _ := zxTempFile("", "truncating")
+	_, _, err := rs.fileStore.flush(out, fields, nil, rs.memStore.offsetsBySource, rs.memStore, false, true)
+	vrtAssert(err == nil, "the truncating flush succeeds")
+	zxFS["/data/t/filestore_99999999999999999999_5.dat"] = zxFS[zxFileName(out)]
+	fs2 := &fileStore{t, rs, fields, "/data/t/filestore_99999999999999999999_5.dat"}
+	type per struct {
+		end time.Time
+		v   float64
+	}
+	onDisk := map[string][]per{}
+	_, err = fs2.iterate(fields, nil, false, false, func(key bytemap.ByteMap, cols []encoding.Sequence, raw []byte) (bool, error) {
+		k, _ := key.Get("k").(string)
+		w := zxFieldA.Expr.EncodedWidth()
+		for p := 0; p < cols[1].NumPeriods(w); p++ {
+			v, set := cols[1].ValueAt(p, zxFieldA.Expr)
+			if set {
+				onDisk[k] = append(onDisk[k], per{cols[1].Until().Add(-time.Duration(p) * time.Second), v})
+			}
+		}
+		if _, ok := onDisk[k]; !ok {
+			onDisk[k] = nil
+		}
+		return true, nil
+	})
+	vrtAssert(err == nil, "the rewritten file scans")
+	for i, age := range ages {
+		end := zxNow.Add(-time.Duration(age) * time.Second)
+		found := false
+		for _, p := range onDisk["x"] {
+			if p.end.Equal(end) {
+				found = true
+				vrtAssert(p.v == float64(10+i), "a kept period keeps its value")
+			}
+		}
+		if end.After(tb) {
+			vrtAssert(found, "a period of x that ends inside the retention window ("+zxItoa(age)+"s old) is still on disk after the truncating flush")
+		} else {
+			vrtAssert(!found, "a period of x that ended at or before now - retention ("+zxItoa(age)+"s old) is gone from disk after the truncating flush")
+		}
+	}
+	_, yPresent := onDisk["y"]
+	if zxNow.Add(-5 * time.Second).After(tb) {
+		vrtAssert(yPresent, "key y is kept while its only period is inside the window")
+	} else {
+		vrtAssert(!yPresent, "key y, whose periods have all expired, is absent from disk")
+	}
+	vrtReach("C14.W")
+}
